@@ -87,6 +87,8 @@ def main():
         sh("git -C %s clean -fdq" % REPO)
         # the checks rewrote evidence files on a modified tree: restore the committed ones
         sh("git -C %s checkout -- evidence" % VERIF)
+        # ... and the regenerated parts of the Lean project
+        sh("git -C %s checkout -- lean/Pulsar/Extracted.lean lean/Pulsar/ExtractedCode.lean" % VERIF)
     print(json.dumps({k: len(v) for k, v in fired.items()}))
     if "--record" in sys.argv:
         import time
